@@ -5,8 +5,10 @@ package main
 // then replayed by the Lean model), targeted method pairs, the invalidate-wins post-condition.
 
 import (
+	"encoding/json"
 	"fmt"
 	"math/rand"
+	"os"
 	"runtime"
 	"sort"
 	"strings"
@@ -724,6 +726,94 @@ func wlCachePairs(c *Ctx, out *raceWorkerOut, arg string) {
 	}
 }
 
+// ---- dumps against writers: progress ------------------------------------------------------------
+
+// wlDumpWriters: DebugDump (and Snapshot, Size) from several goroutines while others store, map,
+// invalidate and sweep. Every call must return: a cache operation that blocks for ever wedges every
+// handshake that shares the cache. The watchdog reports and ends the process.
+func wlDumpWriters(c *Ctx, out *raceWorkerOut) {
+	now := time.Now()
+	cache := security.NewSessionCache()
+	mk := func(k int) *security.SessionEntry {
+		return security.NewSessionEntry(sidOf(k), "srv", nil, nil, now.Add(time.Hour), time.Hour, "")
+	}
+	for k := 0; k < 24; k++ {
+		cache.Store(mk(k))
+		cache.MapCommand("", "srv", fmt.Sprint(k%5), sidOf(k))
+	}
+	dumps := c.Pick(1500, 8000)
+	var done int64
+	var stop int32
+	var wg, ww sync.WaitGroup
+	for g := 0; g < 3; g++ {
+		wg.Add(1)
+		go func(g int) {
+			defer wg.Done()
+			for i := 0; i < dumps; i++ {
+				switch (i + g) % 3 {
+				case 0:
+					_ = cache.DebugDump()
+				case 1:
+					_ = cache.Snapshot()
+				default:
+					_ = cache.Size()
+				}
+				atomic.AddInt64(&done, 1)
+			}
+		}(g)
+	}
+	for g := 0; g < 3; g++ {
+		ww.Add(1)
+		go func(g int) {
+			defer ww.Done()
+			for i := 0; atomic.LoadInt32(&stop) == 0; i++ {
+				k := (i*7 + g) % 24
+				switch i % 5 {
+				case 0:
+					cache.Store(mk(k))
+				case 1:
+					cache.MapCommand("", "srv", fmt.Sprint(k%5), sidOf(k))
+				case 2:
+					cache.Invalidate(sidOf(k))
+				case 3:
+					_, _ = cache.LookupNonExpired(sidOf(k))
+				default:
+					cache.InvalidateExpired()
+				}
+				if i%8 == g {
+					runtime.Gosched()
+				}
+			}
+		}(g)
+	}
+	fin := make(chan struct{})
+	go func() { wg.Wait(); close(fin) }()
+	total := int64(3 * dumps)
+	last, lastChange := int64(-1), time.Now()
+	for {
+		select {
+		case <-fin:
+			atomic.StoreInt32(&stop, 1)
+			ww.Wait()
+			out.count("dump-writers:completed")
+			out.eval("dump-writers", true)
+			return
+		case <-time.After(200 * time.Millisecond):
+		}
+		if d := atomic.LoadInt64(&done); d != last {
+			last, lastChange = d, time.Now()
+		} else if time.Since(lastChange) > 20*time.Second {
+			out.violate(Violation{Property: "C17", Key: "C17:cache-wedged:dump-vs-writers",
+				What:     "DebugDump/Snapshot/Size calls stopped returning while other goroutines were storing / mapping / invalidating: the cache is wedged (every lookup and handshake sharing it blocks)",
+				Ops:      []string{"# 3 goroutines: DebugDump / Snapshot / Size in a loop; 3 goroutines: Store / MapCommand / Invalidate / LookupNonExpired / InvalidateExpired on the same 24 ids"},
+				Expected: fmt.Sprintf("all %d read-side calls return", total), Observed: fmt.Sprintf("%d returned, then no progress for 20 s", last)})
+			b, _ := json.Marshal(out)
+			_ = os.WriteFile(os.Getenv("VERIF_RACE_OUT"), b, 0o644)
+			os.Exit(0)
+		}
+	}
+}
+
 // ---- invalidate wins -----------------------------------------------------------------------------
 
 func wlInvalidateWins(c *Ctx, out *raceWorkerOut) {
@@ -798,7 +888,7 @@ func wlInvalidateWins(c *Ctx, out *raceWorkerOut) {
 		_, again := cache.Lookup("K0")
 		if len(lates) > 0 || again || cache.Size() != 1 {
 			out.violate(Violation{Property: "C17", Key: "C17:lookup-after-invalidate", What: "a lookup that started after Invalidate(K0) had returned still found the session (or it is back after quiescence)",
-				Ops: []string{"# 3 goroutines: Lookup / LookupByCommand / LookupNonExpired / RenewLease+InvalidateExpired / DebugDump+MapCommand on K0; 1 goroutine: Invalidate(K0)"},
+				Ops:      []string{"# 3 goroutines: Lookup / LookupByCommand / LookupNonExpired / RenewLease+InvalidateExpired / DebugDump+MapCommand on K0; 1 goroutine: Invalidate(K0)"},
 				Expected: "every later lookup misses; Size()==1", Observed: fmt.Sprintf("late hits %v, found after quiescence %v, size %d", lates, again, cache.Size())})
 		}
 	}
